@@ -87,7 +87,9 @@ func litgenCases(rng *Rng, quick bool) []packCase {
 		add("numbers", "() => ["+strings.Join(nums[i:j], ", ")+"]")
 		add("numbers-member", "() => ["+strings.Join(mapStr(nums[i:j], func(s string) string { return "(" + s + ").constructor === Number && (" + s + ").valueOf()" }), ", ")+"]")
 		add("numbers-neg", "() => ["+strings.Join(mapStr(nums[i:j], func(s string) string { return "-" + strings.TrimPrefix(s, "-") }), ", ")+"]")
-		add("numbers-ops", "() => ["+strings.Join(mapStr(nums[i:j], func(s string) string { return "1 - -" + strings.TrimPrefix(s, "-") + " + +" + strings.TrimPrefix(s, "-") }), ", ")+"]")
+		add("numbers-ops", "() => ["+strings.Join(mapStr(nums[i:j], func(s string) string {
+			return "1 - -" + strings.TrimPrefix(s, "-") + " + +" + strings.TrimPrefix(s, "-")
+		}), ", ")+"]")
 	}
 	for _, b := range []string{"0n", "1n", "123456789012345678901234567890n", "0x1fn", "0XFFn", "0b101n", "0o777n", "1_000n", "0xffff_ffff_ffff_ffff_ffffn", "9007199254740993n"} {
 		add("bigint", "() => ["+b+", -"+b+", "+b+" + 1n, typeof "+b+", ("+b+").toString()]")
